@@ -99,32 +99,30 @@ class WrappedField:
     @cached_property
     def resolved_type(self):
         try:
-            result = get_type_hints(self.clazz.clazz)[self.field.name]
-            return result
-        except NameError as e:
-            # First try to find the class in the class diagram
-            potential_matching_classes = [
-                cls.clazz
-                for cls in self.clazz._class_diagram.wrapped_classes
-                if cls.clazz.__name__ == e.name
-            ]
-            if len(potential_matching_classes) > 0:
-                found_clazz = potential_matching_classes[0]
-            else:
-                # second try to find it in the modules
-                found_clazz = manually_search_for_class_name(e.name)
-
-            # Build a complete namespace with ALL classes from the class diagram
-            local_namespace = {
-                cls.clazz.__name__: cls.clazz
-                for cls in self.clazz._class_diagram.wrapped_classes
-            }
-            # Also add the manually found class (in case it's not in the diagram)
-            local_namespace[e.name] = found_clazz
-            result = get_type_hints(self.clazz.clazz, localns=local_namespace)[
-                self.field.name
-            ]
-            return result
+            return get_type_hints(self.clazz.clazz)[self.field.name]
+        except NameError:
+            pass
+        # names that the module of the class does not define (imports under TYPE_CHECKING): the classes of the diagram
+        # first, then whatever loaded module has a class of that name. What the module defines itself stays what it is,
+        # also when the diagram holds another class of the same name.
+        module = sys.modules.get(self.clazz.clazz.__module__)
+        names_of_the_module = vars(module) if module is not None else {}
+        class_diagram = self.clazz._class_diagram
+        local_namespace = {
+            cls.clazz.__name__: cls.clazz
+            for cls in (class_diagram.wrapped_classes if class_diagram else [])
+            if cls.clazz.__name__ not in names_of_the_module
+        }
+        while True:
+            try:
+                return get_type_hints(self.clazz.clazz, localns=local_namespace)[
+                    self.field.name
+                ]
+            except NameError as e:
+                if e.name in local_namespace:
+                    raise
+                # every missing name is looked for, not only the first one
+                local_namespace[e.name] = manually_search_for_class_name(e.name)
 
     @cached_property
     def is_builtin_type(self) -> bool:
